@@ -5,6 +5,7 @@ constructor of its kind, the `@"..."` literal and the xsd typed-input constructo
 lexical grammar in pbt/oracles/temporal_cal.py: valid => accepted, every observable component and the denotation of
 `string(v)` equal the written value (nanoseconds as integers), the text reads back as an equal value with an identical
 text, durations print normalised; invalid => null; `unspec` => only the round trip of whatever came back."""
+import random
 import sys
 from decimal import Decimal
 
@@ -385,7 +386,7 @@ def judge_roundtrip(kind, items, exp_v, what):
             return Fail(sig, "%s: the text form %r disagrees with the value's own properties: %s" % (what, st, msg))
     if exp_v is not None and not cal.same_value(ps[1], exp_v):
         return Fail(diagnose_wrong_value(exp_v, ps[1], st), "%s: the text form %r denotes %r, expected %r" % (
-            what, st, ps[1], {x: y for x, y in exp_v.items() if x != "fields"}))
+            what, st, ps[1], {x: y for x, y in exp_v.items() if x != "fields"}), stage="denotation")
     if k == "dtd" and not cal.dtd_is_normalised(st):
         return Fail("C14/duration-not-normalised", "%s: %r is not in normalised form" % (what, st))
     if k == "ymd" and not cal.ymd_is_normalised(st):
@@ -413,33 +414,56 @@ def judge_literal(ctx, case, resp):
     if items is None:
         return Fail("C14/no-result", "%s: %s" % (what, problem))
     v = items[0]
+    fails = []
     if exp[0] == "bad":
         if not is_null(v):
-            return Fail(diagnose_accepted(kind, text, exp[1], v), "%s is not a valid literal (%s) but evaluates to %r" % (what, exp[1], v))
+            fails.append(Fail(diagnose_accepted(kind, text, exp[1], v), "%s is not a valid literal (%s) but evaluates to %r" % (what, exp[1], v)))
     elif exp[0] == "ok":
         ev = exp[1]
         if is_null(v):
             if huge(exp):
                 ctx.classes["huge-duration-null"] += 1
             else:
-                return Fail(diagnose_rejected(kind, text, ev), "%s is a valid literal but evaluates to null (%r)" % (what, v))
+                fails.append(Fail(diagnose_rejected(kind, text, ev), "%s is a valid literal but evaluates to null (%r)" % (what, v)))
+        elif jkind(v) != ev["k"]:
+            fails.append(Fail("C14/wrong-kind", "%s evaluates to %r, expected a %s" % (what, v, ev["k"])))
         else:
-            if jkind(v) != ev["k"]:
-                return Fail("C14/wrong-kind", "%s evaluates to %r, expected a %s" % (what, v, ev["k"]))
             f = judge_roundtrip(kind, items, ev, what)
             if f:
-                return f
+                fails.append(f)
             msg = check_components(kind, items, ev, text)
-            if msg:
-                return Fail("C14/wrong-component", "%s: %s" % (what, msg))
+            if msg and not (f and f.detail.get("stage") == "denotation" and ev["k"] in ("dtd", "ymd")):
+                fails.append(Fail("C14/wrong-component", "%s: %s" % (what, msg)))
     else:
         if not is_null(v) and jkind(v):
             f = judge_roundtrip(kind, items, None, what)
             if f:
-                return f
+                fails.append(f)
     # the other two constructors must agree with the expectation as well
     f = judge_other(ctx, kind, text, exp, v, resp)
-    return f
+    if f:
+        fails.append(f)
+    return pick(ctx, case, fails)
+
+
+def pick(ctx, case, fails):
+    """Several checks of one case may fail: an unexplained failure wins; explained ones are all counted."""
+    if not fails:
+        return None
+    chosen = None
+    for f in fails:
+        if f.sig not in ctx.open_sigs:
+            chosen = f
+            break
+    chosen = chosen or fails[0]
+    for f in fails:
+        if f is not chosen and f.sig in ctx.open_sigs and f.sig != chosen.sig:
+            ctx.excluded_known[f.sig] += 1
+            if f.sig not in ctx.known_seen:
+                ctx.known_seen[f.sig] = {"case": case, "message": f.msg}
+            if hasattr(ctx, "dev_all"):
+                ctx.dev_all(case, f)
+    return chosen
 
 
 def judge_other(ctx, kind, text, exp, v, resp):
@@ -857,7 +881,7 @@ FRACTION_BASES = [("time", "23:59:59%s"), ("time", "00:00:00%sZ"), ("time", "12:
 
 
 def enum_fractions(ctx):
-    rnd = ctx.rng("fractions")
+    rnd = random.Random("C14/%s/fractions" % ctx.seed)        # the same list in every worker: ctx.mine() partitions it
     per = ctx.scale(40, 400)
     for n in range(0, 13):
         pats = []
@@ -922,8 +946,7 @@ def corrupt_seeds(ctx):
     """~200 valid literals: the fixed list plus generated ones (deterministic per seed)"""
     from ..engine import Src
     out = list(CORRUPT_SEEDS)
-    rnd = ctx.rng("corrupt-seeds")
-    import random
+    rnd = random.Random("C14/%s/corrupt-seeds" % ctx.seed)     # the same list in every worker: ctx.mine() partitions it
     tries = 0
     while len(out) < 200 and tries < 5000:
         tries += 1
